@@ -155,8 +155,10 @@ impl Stats {
             Err(f) => {
                 if let Some(k) = &f.key {
                     if self.known.contains(k) {
-                        let e = self.known_seen.entry(k.clone()).or_insert((0, f.msg.clone()));
-                        e.0 += 1;
+                        if !self.frozen {
+                            let e = self.known_seen.entry(k.clone()).or_insert((0, f.msg.clone()));
+                            e.0 += 1;
+                        }
                         return Ok(());
                     }
                 }
